@@ -1,9 +1,10 @@
 // C06 ordering / NaN sentinel / negation / abs,  C15 floor / ceil,  C18 shifts and &.
 // All three have exact integer oracles.
 #include "common.h"
+#include "types.h"
 
 namespace {
-inline i128 floor_div(i128 x, i128 d) { i128 q = x / d; if( (x % d != 0) && ((x < 0) != (d < 0)) ) --q; return q; }
+inline i128 floor_div_local(i128 x, i128 d) { i128 q = x / d; if( (x % d != 0) && ((x < 0) != (d < 0)) ) --q; return q; }
 
 //====================================================================== C06
 const int CMPS[6] = { B_EQ, B_NE, B_LT, B_LE, B_GT, B_GE };
@@ -211,9 +212,10 @@ struct C18
   Recorder& rec; int c_shr, c_shl_exact, c_shl_sign, c_neg, c_and;
   explicit C18(Recorder& r) : rec(r), c_shr(r.cls("C18.shr_not_floor")), c_shl_exact(r.cls("C18.shl_in_range_wrong")),
      c_shl_sign(r.cls("C18.shl_overflow_opposite_sign")), c_neg(r.cls("C18.negative_count_not_nan")), c_and(r.cls("C18.and_wrong")) {}
-  template<typename V> void shift(Shim* s, int left, i64 x, int r, i64 got, u64 order, V& lv)
+  template<typename V> void shift(Shim* s, int left, i64 x, int r, i64 got, u64 order, V& lv, int ctype = -1)
     {
-    auto mk = [=](std::string exp) { return ex1(s, left ? "operator <<" : "operator >>", "", {{"x",to_s(x)},{"r",to_s(r)}}, exp, to_s(got), "shift", {to_s(left), to_s(x), to_s(r)}); };
+    auto mk = [=](std::string exp) { return ctype < 0 ? ex1(s, left ? "operator <<" : "operator >>", "", {{"x",to_s(x)},{"r",to_s(r)}}, exp, to_s(got), "shift", {to_s(left), to_s(x), to_s(r)})
+                                                      : ex1(s, left ? "operator <<" : "operator >>", std::string("count of type ") + TN[ctype], {{"x",to_s(x)},{"r",to_s(r)}}, exp, to_s(got), "tshift", {to_s(left), to_s(ctype), to_s(x), to_s(r)}); };
     if( r < 0 ) { if( !fx_isnan(got) ) lv.hit(c_neg, order, [=]{ return mk("NaN"); }); return; }
     if( !left )
       {
@@ -274,6 +276,27 @@ void explore18(Options const& o, std::vector<Shim*> const& shims, std::vector<Sh
         }
       rec.count(std::string("dense_counts_from.") + s->name, static_cast<u64>(-r_lo));
       }
+    // the count written with each integral type (no cast at the call site); counts restricted to the property's range [-2^31, 63]
+    {
+    std::vector<i64> const& Xt = Sa;
+    for( int t : INT_TYPES )
+      {
+      std::vector<i64> cn;
+      for( int r : R ) if( static_cast<i128>(r) >= t_min(t) && static_cast<i128>(r) <= t_max(t) ) cn.push_back(r);
+      if( t_min(t) >= INT32_MIN && t_min(t) < 0 ) cn.push_back(static_cast<i64>(t_min(t)));
+      std::sort(cn.begin(), cn.end()); cn.erase(std::unique(cn.begin(), cn.end()), cn.end());
+      for( int left = 0; left < 2; ++left )
+        {
+        parallel_blocks(Xt.size(), o.threads, [&](size_t i, int) {
+          LocalViol lv(rec); std::vector<i64> out(cn.size());
+          s->fm_shift_typed(left, t, Xt[i], cn.data(), cn.size(), out.data());
+          for( size_t j = 0; j < cn.size(); ++j )
+            c.shift(s, left, Xt[i], static_cast<int>(cn[j]), out[j], ob | (static_cast<u64>(0x10 + t) << 48) | (static_cast<u64>(left) << 47) | (i * cn.size() + j), lv, t);
+          });
+        u64 n = static_cast<u64>(Xt.size()) * cn.size(); rec.add_states(n, n, n); rec.count("typed_count_states", n);
+        }
+      }
+    }
     sweep_pairs(s, B_AND, Sa, Sa, o.threads, rec, ob | (3ull << 48), [&](i64 a, i64 b, i64 got, u64 ord, LocalViol& lv) {
       if( got != (a & b) ) lv.hit(c.c_and, ord, [=]{ return ex1(s, "operator &", "", {{"a",to_s(a)},{"b",to_s(b)}}, to_s(a & b), to_s(got), "and", {to_s(a), to_s(b)}); }); });
     }
@@ -289,11 +312,46 @@ void replay18(Options const& o, Shim* s, Recorder& rec)
     c.shift(s, left, x, r, s->fm_shift(left, x, r), 0, d);
     i64 out; s->fm_shift_range(left, x, r, 1, &out); c.shift(s, left, x, r, out, 0, d);
     }
+  else if( o.rcase == "tshift" )
+    {
+    int left = static_cast<int>(parse_i64(o.rin.at(0))), t = static_cast<int>(parse_i64(o.rin.at(1))); i64 x = parse_i64(o.rin.at(2)), r = parse_i64(o.rin.at(3)), out = 0;
+    s->fm_shift_typed(left, t, x, &r, 1, &out); c.shift(s, left, x, static_cast<int>(r), out, 0, d, t);
+    }
   else { i64 a = parse_i64(o.rin.at(0)), b = parse_i64(o.rin.at(1)); i64 got = s->fm_bin(B_AND, a, b);
          if( got != (a & b) ) rec.viol(c.c_and, 0, [&]{ return ex1(s, "operator &", "", {{"a",to_s(a)},{"b",to_s(b)}}, to_s(a & b), to_s(got), o.rcase, o.rin); }); }
   rec.add_states(1,1,1);
   }
+bool judge06(Shim* s, Recorder& rec, std::string const& kind, std::vector<u64> const& a, u64 value, u64 idx)
+  {
+  C06 c(rec); DirectViol d{rec};
+  if( kind == "un" && a.size() == 2 && (a[0] == U_NEG || a[0] == U_ABS || a[0] == U_ISNAN) )
+    { i64 x = static_cast<i64>(a[1]); if( a[0] == U_ISNAN ? (fx_finite(x) || fx_isnan(x)) : fx_finite(x) ) c.un(s, static_cast<int>(a[0]), x, static_cast<i64>(value), idx, d); return true; }
+  if( kind == "bin" && a.size() == 3 )
+    for( int k = 0; k < 6; ++k ) if( static_cast<int>(a[0]) == CMPS[k] ) { c.cmp(s, k, static_cast<i64>(a[1]), static_cast<i64>(a[2]), static_cast<i64>(value), idx, d); return true; }
+  return false;
+  }
+bool judge15(Shim* s, Recorder& rec, std::string const& kind, std::vector<u64> const& a, u64 value, u64 idx)
+  {
+  C15 c(rec); DirectViol d{rec};
+  if( kind == "un" && a.size() == 2 && (a[0] == U_FLOOR || a[0] == U_CEIL) )
+    { i64 x = static_cast<i64>(a[1]); if( C15::in_domain(x) ) c.chk(s, static_cast<int>(a[0]), x, static_cast<i64>(value), idx, d); return true; }
+  return false;
+  }
+bool judge18(Shim* s, Recorder& rec, std::string const& kind, std::vector<u64> const& a, u64 value, u64 idx)
+  {
+  C18 c(rec); DirectViol d{rec};
+  if( kind == "shift" && a.size() == 3 )
+    { i64 x = static_cast<i64>(a[1]); i64 r = static_cast<i64>(a[2]); if( fx_finite(x) && r >= INT32_MIN && r <= 63 ) c.shift(s, static_cast<int>(a[0]), x, static_cast<int>(r), static_cast<i64>(value), idx, d); return true; }
+  if( kind == "bin" && a.size() == 3 && a[0] == B_AND )
+    { i64 x = static_cast<i64>(a[1]), y = static_cast<i64>(a[2]), got = static_cast<i64>(value);
+      if( got != (x & y) ) rec.viol(c.c_and, idx, [&]{ return ex1(s, "operator &", "", {{"a",to_s(x)},{"b",to_s(y)}}, to_s(x & y), to_s(got), "and", {}); });
+      return true; }
+  return false;
+  }
 }
 REGISTER_PROPERTY(C06, explore06, replay06)
+REGISTER_JUDGE(C06, judge06)
+REGISTER_JUDGE(C15, judge15)
+REGISTER_JUDGE(C18, judge18)
 REGISTER_PROPERTY(C15, explore15, replay15)
 REGISTER_PROPERTY(C18, explore18, replay18)
